@@ -5,6 +5,9 @@ V = os.path.dirname(os.path.dirname(os.path.abspath(__file__)))
 p = os.path.join(V, "props_index.json")
 d = json.load(open(p))
 def kind(n):
+    # `…_former_witness…` = the witness of a REPAIRED defect now behaves: a positive statement that must keep holding (never salvaged)
+    if "former_witness" in n:
+        return "full"
     return "counterexample" if ("counterexample" in n or n.endswith("_witness") or n.endswith("_tight")) else "partial" if "_partial" in n else "full"
 pid = sys.argv[1]
 trusted = sys.argv[2:]
